@@ -766,6 +766,30 @@ def run(ctx: Any, prog: Program) -> None:
               'parse_file must tokenise with colon and plus operators, without bracket strings, decoding escapes', func='FGD.parse_file', text='tokenizer options')
     rc = U(fgd.func('_read_colon_list'))
     ctx.shape('C16.Q4', 'token is Token.PLUS' in rc and 'strings[-1] += tok.expect(Token.STRING)' in rc, fgd, fgd.func('_read_colon_list'), 'the reader concatenates +-joined pieces', func='_read_colon_list', text='reader joins + pieces')
+    # ---- Q3 (helpers in the entity header): a helper name is followed by its parenthesised arguments ---------------------------------------
+    # The header parser only completes a pending *known* helper when the next name arrives; a pending unknown name is simply overwritten.
+    # So the writer may leave the parentheses out only for a name it spells out and that is a HelperTypes member.
+    from engine.kvtext import flatten as _flat
+    exp_fn = fgd.func('EntityDef.export')
+    hloops = [n for n in walk_no_nested(exp_fn) if isinstance(n, ast.For) and (dotted(n.iter) or '').endswith('.helpers')]
+    ctx.shape('C16.Q3', len(hloops) == 1, fgd, exp_fn, 'EntityDef.export has one loop over self.helpers', func='EntityDef.export', text='helper loop')
+    try:
+        helper_names = {str(m.value) for m in Folder(prog, fgd).enum_table('HelperTypes')}
+    except Exception:  # noqa: BLE001
+        helper_names = set()
+    for hl in hloops:
+        for c in [x for b in hl.body for x in ast.walk(b) if isinstance(x, ast.Call) and isinstance(x.func, ast.Attribute) and x.func.attr == 'write' and x.args]:
+            pieces = _flat(c.args[0])
+            lits = ''.join(p_.text for p_ in pieces if p_.kind == 'lit')
+            if '(' in lits:
+                ctx.check('C16.Q3', True, fgd, c, 'name followed by parenthesised arguments', func='EntityDef.export', text=f'helper written as `{U(c.args[0])[:40]}`')
+            elif all(p_.kind == 'lit' for p_ in pieces):
+                ctx.check('C16.Q3', lits.strip() in helper_names or not helper_names, fgd, c, f'the bare keyword {lits.strip()!r} is not a HelperTypes member: the parser keeps it pending as an unknown helper and drops it when the next '
+                          'helper name arrives', func='EntityDef.export', text=f'helper written as `{U(c.args[0])[:40]}`')
+            else:
+                ctx.check('C16.Q3', False, fgd, c, f'`{U(c.args[0])[:60]}` writes a helper name that is not spelled out without parentheses: the header parser overwrites a pending unknown helper name when the next name '
+                          'arrives, so this helper (and the arguments of the following one) are misread unless it is the last helper', func='EntityDef.export', text=f'helper written as `{U(c.args[0])[:40]}`')
+
     # ---- Q5 --------------------------------------------------------------------------------------------------
     edb = db.methods('EngineDB')
     pb, ge, gf = edb['_parse_block'], edb['get_ent'], edb['get_fgd']
@@ -807,6 +831,41 @@ def run(ctx: Any, prog: Program) -> None:
     gsrc = U(ge)
     ok = 'if isinstance(ent_info, EntityDef):\n        return ent_info' in gsrc and 'self._parse_block(ent_info)' in gsrc and 'classname.casefold()' in gsrc
     ctx.shape('C16.Q5', ok, db, ge, 'get_ent returns the cached definition or parses exactly the block the placeholder names', func='EngineDB.get_ent', text='get_ent cache / placeholder')
+    # placeholders are block *indexes*, and the first block has index 0: a lookup result may be told apart from "absent" only with `in`,
+    # `is None` or isinstance - its truthiness makes every entity of block 0 look missing until something else has parsed that block
+    idx_tables: Set[str] = set()
+    for fq, ffl in db.all_funcs().items():
+        for ff in ffl:
+            loopvars = {t.id for n in ast.walk(ff) if isinstance(n, ast.For) and isinstance(n.iter, ast.Call) and dotted(n.iter.func) in ('range', 'enumerate') for t in ast.walk(n.target) if isinstance(t, ast.Name)}
+            for a in ast.walk(ff):
+                if isinstance(a, ast.Assign) and isinstance(a.value, ast.Name) and a.value.id in loopvars:
+                    for t in a.targets:
+                        if isinstance(t, ast.Subscript) and isinstance(t.value, ast.Name):
+                            idx_tables.add(t.value.id)
+    edb_attrs = {a.targets[0].attr for a in ast.walk(db.func('EngineDB.__init__')) if isinstance(a, ast.Assign) and isinstance(a.targets[0], ast.Attribute) and isinstance(a.value, ast.Name) and a.value.id in idx_tables}
+    ctx.shape('C16.Q5', bool(edb_attrs), db, db.func('EngineDB.__init__'), 'the table of block-index placeholders handed to EngineDB was not found', func='EngineDB.__init__', text='placeholder table')
+    for mq, mfl in db.all_funcs().items():
+        if not mq.startswith('EngineDB.'):
+            continue
+        for mf in mfl:
+            def from_table(e: ast.AST) -> bool:
+                if isinstance(e, ast.Subscript) and isinstance(e.value, ast.Attribute) and e.value.attr in edb_attrs:
+                    return True
+                return isinstance(e, ast.Call) and isinstance(e.func, ast.Attribute) and e.func.attr in ('get', 'pop') and isinstance(e.func.value, ast.Attribute) and e.func.value.attr in edb_attrs
+            held = {t.id for a in walk_no_nested(mf) if isinstance(a, ast.Assign) and from_table(a.value) for t in a.targets if isinstance(t, ast.Name)}
+            held |= {a.target.id for a in walk_no_nested(mf) if isinstance(a, ast.NamedExpr) and from_table(a.value)}
+            for n in walk_no_nested(mf):
+                tests: List[ast.AST] = []
+                if isinstance(n, (ast.If, ast.While, ast.IfExp, ast.Assert)):
+                    tests = [n.test]
+                elif isinstance(n, ast.BoolOp):
+                    tests = list(n.values)
+                elif isinstance(n, ast.UnaryOp) and isinstance(n.op, ast.Not):
+                    tests = [n.operand]
+                for t in tests:
+                    if (isinstance(t, ast.Name) and t.id in held) or from_table(t) or (isinstance(t, ast.NamedExpr) and from_table(t.value)):
+                        ctx.check('C16.Q5', False, db, n, f'{mq} uses the truth value of `{U(t)}`, a lookup in the placeholder table: the placeholder of the first block is the index 0, which is falsy, so every entity '
+                                  'of block 0 is reported missing (KeyError) on a fresh database although engine_classes() lists it', func=mq, text=f'{mq}: placeholder not used as a truth value')
     fsrc = U(gf)
     calls_gf = {dotted(c.func) for c in ast.walk(gf) if isinstance(c, ast.Call)}
     ok = 'self._parse_block' in calls_gf and 'ent_unserialise' not in calls_gf
@@ -816,6 +875,9 @@ def run(ctx: Any, prog: Program) -> None:
 
 
 MUTANTS: List[Dict[str, Any]] = [
+    {'id': 'unknown_helper_bare_without_args', 'file': 'fgd.py', 'find': """                file.write(f'\\n\\t{helper.name}({", ".join(args)})')""", 'replace': """                file.write(f'\\n\\t{helper.name}({", ".join(args)})' if args else f'\\n\\t{helper.name}')""", 'expect': 'C16.Q3'},
+    {'id': 'get_ent_placeholder_truthiness', 'file': '_engine_db.py', 'find': "        ent_info = self.ent_map[classname.casefold()]  # Or KeyError if not present.\n", 'replace': "        ent_info = self.ent_map.get(classname.casefold())\n        if not ent_info:\n            raise KeyError(classname)\n", 'expect': 'C16.Q5'},
+    {'id': 'ok_get_ent_placeholder_is_none', 'file': '_engine_db.py', 'find': "        ent_info = self.ent_map[classname.casefold()]  # Or KeyError if not present.\n", 'replace': "        ent_info = self.ent_map.get(classname.casefold())\n        if ent_info is None:\n            raise KeyError(classname)\n", 'expect': None},
     {'id': 'resources_deduplicated_on_write', 'file': '_engine_db.py', 'find': "    for res in ent.resources:\n        if res.tags:  # Tags are fairly rare.", 'replace': "    uniq = {}\n    for res in ent.resources:\n        uniq.setdefault((res.filename, res.type), res)\n    for res in uniq.values():\n        if res.tags:  # Tags are fairly rare.", 'expect': 'C16.Q1'},
     {'id': 'resources_block_by_truthiness', 'file': 'fgd.py', 'find': "        if custom_syntax and self.resources != ():", 'replace': "        if custom_syntax and self.resources:", 'expect': 'C16.Q3'},
     {'id': 'ok_resources_block_by_predicate', 'file': 'fgd.py', 'find': "        if custom_syntax and self.resources != ():", 'replace': "        if custom_syntax and self.resources_defined():", 'expect': None},
